@@ -381,6 +381,8 @@ func c03EnvScope(env string) parser.Scope {
 	return vs
 }
 
+var c03ExpLiteral = regexp.MustCompile(`[0-9][0-9.]*[eE][+-]?[0-9]+`)
+
 // c03Case describes one case for the payload builder.
 type c03Case struct {
 	src      string
@@ -414,6 +416,11 @@ func c03PayloadOf(c c03Case) string {
 		if t.ID == parser.TokenNUMBER {
 			addNum(t.Val)
 		}
+	}
+	// number literals with an exponent the lexer splits (known finding number-exponent-split): the
+	// documented reading needs the value of the whole literal
+	for _, t := range c03ExpLiteral.FindAllString(src, -1) {
+		addNum(strings.ToLower(t))
 	}
 	for _, t := range c.intended {
 		if len(t) > 0 && t[0] >= '0' && t[0] <= '9' {
